@@ -80,6 +80,9 @@ impl Prop for C07 {
             "marker search is confined to the bytes after the header and to encrypted archives".into(),
         ]
     }
+    fn prod_digest_comparable(&self) -> bool {
+        true
+    }
     fn runs(&self, tier: Tier) -> u64 {
         match tier {
             Tier::Quick => 320,
